@@ -48,18 +48,22 @@ def validHeader (h : PageHeader) : Bool :=
 def decItem (raw : Nat) : ItemID :=
   ⟨raw &&& 0x7FFF, (raw >>> 17) &&& 0x7FFF, (raw >>> 15) &&& 0x03⟩
 
-/-- `for off := 24; off < lower; off += 4 { raw := u32(data, off) … }`, `n` iterations left -/
-def parseItemsLoop (data : Bytes) : Nat → Nat → M (List ItemID)
+/-- `for off := 24; off < lower && off+4 <= len(data); off += 4 { raw := u32(data, off) … }`,
+`n` = iterations still allowed -/
+def parseItemsLoop (data : Bytes) (lower : Nat) : Nat → Nat → M (List ItemID)
   | 0, _ => pure []
-  | n+1, off => do
-    let raw ← uN 4 data off
-    let rest ← parseItemsLoop data n (off + 4)
-    pure (decItem raw :: rest)
+  | n+1, off =>
+    if off < lower ∧ off + 4 ≤ data.length then do
+      let raw ← uN 4 data off
+      let rest ← parseItemsLoop data lower n (off + 4)
+      pure (decItem raw :: rest)
+    else pure []
 
+/-- an iteration count that is always enough: the loop runs ⌈(lower − 24)/4⌉ times at most -/
 def itemCount (lower : Nat) : Nat := (lower - 24 + 3) / 4
 
 def parseItems (data : Bytes) (lower : Nat) : M (List ItemID) :=
-  parseItemsLoop data (itemCount lower) 24
+  parseItemsLoop data lower (itemCount lower) 24
 
 /-! ### tuple.go -/
 
